@@ -308,6 +308,8 @@ func runC02(x *xctx) *violation {
 			"00400000-00500000 r-xp 00000000 fd:01 1234       (deleted)\n",
 			"00400000-00500000 r-xp 00000000 00:00 0          [vdso]\n00500000-00600000 r-xp 00000000 00:00 0          /lib/libc-2.31.so\n",
 			"00400000-00500000: /bin/prog\n",
+			"00400000-00500000 r-xp 00000000 00:00 0          /anon_hugepage (deleted)\n",
+			"00400000-00500000 r-xp 00000000 00:00 0          /anon_hugepage (deleted)\n00500000-00600000 r-xp 00000000 00:00 0          /bin/prog\n",
 			"00400000-00500000 r-xp 00000000 00:00 0\n",
 			"",
 		}
@@ -393,6 +395,9 @@ func runC02(x *xctx) *violation {
 		if i%4 == 3 {
 			n2, d2 = genProfilez()
 		}
+		if i%8 == 5 {
+			n2, d2 = "generated-legacy.txt", genLegacyText(t)
+		}
 		simos.PutFile(path, d2)
 		r2, v := c02Try(x, path, true)
 		if v != nil {
@@ -400,7 +405,8 @@ func runC02(x *xctx) *violation {
 			v.Detail = "undamaged " + n2 + ": " + v.Detail
 			return v
 		}
-		if !r2.parsed {
+		if !r2.parsed && n2 != "generated-legacy.txt" {
+			// (the seeded legacy texts are not all acceptable inputs: an error is a fine answer for them)
 			return violf("corpus-rejected", "undamaged generated profile %s does not parse: %s", n2, r2.errText)
 		}
 		x.stats["undamaged_extra"]++
